@@ -264,3 +264,31 @@ Qed.
 Theorem log_shows_receptions : forall p s i r c ch, reach p s -> nth_error (rs s) i = Some r -> nth_error (chs s) c = Some ch ->
   pops c (log r) = map rcv_val (by_ i (rcvd ch)).
 Proof. intros. eapply logs_linked_reach; eauto. Qed.
+
+(* ---- select: whatever the order of the clauses, and wherever timeout clauses stand among them, the item is
+        taken from the channel of the chosen clause and delivered to THAT clause (the log entry carries the
+        clause's channel); a timeout clause whose timer has not fired is never chosen; no other channel changes ---- *)
+Theorem select_delivers_to_its_clause : forall s i k s' r f rest cs ops',
+  nth_error (rs s) i = Some r -> stk r = f :: rest -> unw r = false -> ext r = None -> fops f = OSelect cs :: ops' ->
+  step s i k = Some s' ->
+  exists c ch ch' v r',
+    nth_error cs k = Some (Some c) /\ nth_error (chs s) c = Some ch /\ take ch i = Some (v, ch') /\
+    chs s' = upd (chs s) c ch' /\ nth_error (rs s') i = Some r' /\
+    log r' = log r ++ [EvPop c v] /\ got r' = v /\ stk r' = mkF (fk f) ops' :: rest.
+Proof.
+  intros s i k s' r f rest cs ops' R ST U E O H. unfold step in H. rewrite R in H.
+  destruct (parked s i); try discriminate. rewrite ST, U, E, O in H. unfold exec in H.
+  destruct (nth_error cs k) as [[c|]|] eqn:N; try discriminate.
+  destruct (nth_error (chs s) c) as [ch|] eqn:C; try discriminate.
+  destruct (take ch i) as [[v ch']|] eqn:T; try discriminate. inversion H; subst.
+  exists c, ch, ch', v, (recv (set_stk r (mkF (fk f) ops' :: rest)) c v).
+  repeat split; auto. simpl. eapply nth_error_upd_same; eauto.
+Qed.
+
+Corollary select_never_runs_timeout_clause : forall s i k r f rest cs ops',
+  nth_error (rs s) i = Some r -> stk r = f :: rest -> unw r = false -> ext r = None -> fops f = OSelect cs :: ops' ->
+  nth_error cs k = Some None -> step s i k = None.
+Proof.
+  intros s i k r f rest cs ops' R ST U E O N. unfold step. rewrite R.
+  destruct (parked s i); auto. rewrite ST, U, E, O. unfold exec. rewrite N. auto.
+Qed.
